@@ -220,9 +220,13 @@ ElemAttribute::startElement(StylesheetExecutionContext& executionContext) const
 
                     XalanDOMString&     newPrefix = newPrefixGuard.get();
 
-                    // If the prefix on the QName is xmlns, we cannot use it.
+                    // If the prefix on the QName is xmlns, we cannot use it.  The
+                    // same is true for xml, unless the namespace requested is the
+                    // one the xml prefix is bound to.
                     const bool          fPrefixIsXMLNS =
-                        startsWith(origAttrName, DOMServices::s_XMLNamespaceWithSeparator);
+                        startsWith(origAttrName, DOMServices::s_XMLNamespaceWithSeparator) ||
+                        (startsWith(origAttrName, DOMServices::s_XMLStringWithSeparator) &&
+                         equals(attrNameSpace, DOMServices::s_XMLNamespaceURI) == false);
 
                     // If there's a prefix, and it's not xmlns, then use
                     // the prefix that's provided.
@@ -526,9 +530,13 @@ ElemAttribute::execute(StylesheetExecutionContext&  executionContext) const
 
                     XalanDOMString&     newPrefix = newPrefixGuard.get();
 
-                    // If the prefix on the QName is xmlns, we cannot use it.
+                    // If the prefix on the QName is xmlns, we cannot use it.  The
+                    // same is true for xml, unless the namespace requested is the
+                    // one the xml prefix is bound to.
                     const bool          fPrefixIsXMLNS =
-                        startsWith(origAttrName, DOMServices::s_XMLNamespaceWithSeparator);
+                        startsWith(origAttrName, DOMServices::s_XMLNamespaceWithSeparator) ||
+                        (startsWith(origAttrName, DOMServices::s_XMLStringWithSeparator) &&
+                         equals(attrNameSpace, DOMServices::s_XMLNamespaceURI) == false);
 
                     // If there's a prefix, and it's not xmlns, then use
                     // the prefix that's provided.
